@@ -179,6 +179,11 @@ class MetaMolecule(nx.Graph):
         self.clear()
         self.add_nodes_from(new_meta_graph.nodes(data=True))
         self.add_edges_from(new_meta_graph.edges)
+        # the regenerated residues start with the same flags as the
+        # residues of a newly created meta-molecule
+        for node in self.nodes:
+            self.nodes[node].setdefault("build", True)
+            self.nodes[node].setdefault("backmap", True)
 
     def split_residue(self, split_strings):
         """
